@@ -8,5 +8,5 @@ CONSTANTS
     NormTable <- McNormTable
 VIEW view
 INVARIANT ReuseTransparent
-PROPERTIES SegmentsImmutable BitmapsImmutable StatsIndependent
+PROPERTIES SegmentsImmutable BitmapsImmutable StatsIndependent FieldListsImmutable DitsIndependent
 CHECK_DEADLOCK FALSE
